@@ -68,7 +68,7 @@ def _after_small_return(body, call):
 
 def run(tier, runner):
     pts = matrix.smallset_points(tier)
-    progs = matrix.programs(runner, pts)
+    progs = matrix.programs(runner, pts) + matrix.real_programs(runner, tier)
     r_alt = sets.iter_alt(progs)
     r_sib = sets.alt_sib(progs)
     r_var = variant_alt(progs)
